@@ -42,6 +42,28 @@ def setup_path():
     os.environ[GUARD] = '1'
 
 
+# Set when the operating system refused to start a thread: from then on
+# whatever the code under test does is an artefact of the machine, not of
+# the library - nothing observed afterwards is judged.
+EXHAUSTED = []
+
+
+def _guard_thread_start():
+    orig = threading.Thread.start
+    if getattr(orig, '_verif_guard', False):
+        return
+
+    def start(self):
+        try:
+            return orig(self)
+        except RuntimeError as e:
+            if "can't start new thread" in str(e):
+                EXHAUSTED.append(time.time())
+            raise
+    start._verif_guard = True
+    threading.Thread.start = start
+
+
 class Inconclusive(Exception):
     pass
 
@@ -186,6 +208,9 @@ class Ctx:
              'seed': self.seed, 'tier': self.tier, 'shard': self.shard,
              'witness': jsonable(witness)}
         with self._lock:
+            if EXHAUSTED:
+                self.counters['discarded_after_resource_exhaustion'] += 1
+                return True
             if key is not None and (self.pid, key) in self._known:
                 self.known_hits[key] += 1
                 self.known_examples.setdefault(key, w)
@@ -209,6 +234,11 @@ def _write_replay(pid, w):
 
 
 def _partial(ctx, status, detail=None):
+    if EXHAUSTED:
+        status = 'inconclusive'
+        detail = ('the operating system refused to start a thread '
+                  '(resource exhaustion on this machine); nothing observed '
+                  'after that was judged')
     return {
         'status': status, 'detail': detail,
         'evaluations': ctx.evaluations,
@@ -227,6 +257,7 @@ def _partial(ctx, status, detail=None):
 def run_one(mod, ctx, watchdog):
     """Run mod.run(ctx) under a watchdog; returns partial dict."""
     result = {}
+    _guard_thread_start()
 
     def target():
         try:
